@@ -5,6 +5,7 @@ CONSTANTS
   Thr = 2
   InitBal = 9
   PersistUnderLock = FALSE
+  RefreshReadsUnderLock = TRUE
   Amounts <- GAmounts
   MaxOps = 0
 INVARIANT EmitFull
